@@ -5,6 +5,7 @@ From Coq Require Import List NArith Bool Arith Sorted.
 From Coq Require Import Strings.Byte.
 Require Import BS.Bytes BS.Common BS.Api BS.Layout BS.Format BS.FormatFacts BS.Spec BS.SpecStep.
 Require Import BS.FS BS.FSFacts BS.Meta BS.MetaFacts BS.Header BS.Reader BS.ReaderFacts BS.Index BS.Data BS.DataFacts BS.Seek BS.Series BS.SeriesFacts BS.ReadAllFacts BS.TotalFacts BS.ExtractFacts BS.HeaderFacts BS.LastMetaFacts BS.OpenFacts BS.TornFacts BS.TornGenFacts BS.Sections.
+Require Import BS.World BS.Judge BS.JudgeFacts.
 Import ListNotations.
 
 
@@ -139,3 +140,16 @@ Theorem C04_open_intact_refuted :
   /\ snd (World.run World.init_world d6_ops) = [ROpened 0 []; RUnit; RUnit; ROPanic].
 Proof. exact d6_refuted. Qed.
 Print Assumptions C04_open_intact_refuted.
+
+(* (I refines S, at the level of the public API, across reopenings) every history - create a series in an empty directory, then
+   any sequence of session operations (appends accepted or refused, full / bounded / first-n / resampling reads, counts,
+   accessors, with any arguments) and clean close-and-reopen steps (with or without the payload size and the header demanded),
+   the reopens falling where C04 is proved: any lines for payload sizes >= 4, the marker-word condition nm_sec for 0..3 - run
+   on the model of the library is ACCEPTED BY THE JUDGE at every step: every answer is in the allowed set, the files of the
+   model are byte for byte the files the judge expects (so no open alters a file), and the judge stays determined *)
+Theorem C04_history_accepted_by_judge : forall (name:list byte) (p:nat) (hdr:list byte),
+  (len (params_to_text BSgen.Consts.version (N.of_nat p) ++ hdr) <= 65535)%N -> (N.of_nat p < 2^64)%N ->
+  forall cb hs, JudgeFacts.hvalid p hdr [] hs ->
+  accepted World.init_world judge_init (ONew name (N.of_nat p) hdr [] cb :: JudgeFacts.flatten name hs).
+Proof. exact history_accepted. Qed.
+Print Assumptions C04_history_accepted_by_judge.
